@@ -3,7 +3,7 @@ import Hv.Generated.FactsC05
 
 namespace Hv.C05
 
-theorem verdict : (classify Generated.factsC05).Sound (Holds (cfgOf Generated.factsC05)) (HoldsPartial (cfgOf Generated.factsC05)) :=
+theorem verdict : (classify Generated.factsC05).Sound (Full (cfgOf Generated.factsC05)) (HoldsPartial (cfgOf Generated.factsC05)) :=
   classify_sound _
 
 #eval IO.println (verdictLine "C05" (classify Generated.factsC05))
@@ -19,6 +19,11 @@ theorem verdict : (classify Generated.factsC05).Sound (Holds (cfgOf Generated.fa
 #print axioms not_holds_resurrect
 #print axioms not_holds_incfail
 #print axioms findings_backed
+#print axioms fail_keeps_recs
+#print axioms not_fail_keeps_recs
+#print axioms recreate_stays_filed
+#print axioms not_recreate_stays_filed
+#print axioms not_single_gob
 #print axioms C05_partial
 #print axioms not_holds_gob
 #print axioms current_zero_witness
